@@ -6,7 +6,7 @@
    (M, N); bases B_r (M x a) and B_c (N x c) (eigenvectors or B-splines; a <> c and M <> N allowed);
    [cf] is the index-level configuration translated from the current source (gen/GenC20.v). *)
 From Coq Require Import ZArith List Bool Ring.
-From PB Require Import C20.Model C20.Proofs C20.Layout C20.Reductions gen.GenC20 C20.GenOk.
+From PB Require Import C20.Model C20.Proofs C20.Layout C20.Reductions C20.EndToEnd gen.GenC20 C20.GenOk.
 Import ListNotations.
 Open Scope Z_scope.
 
@@ -224,6 +224,39 @@ Theorem C20_eigenbasis_penalty : forall (R : ops),
   = pen_spec R (Z.of_nat a) (Z.of_nat c) lr lc r s.
 Proof. exact eigenbasis_penalty. Qed.
 Print Assumptions C20_eigenbasis_penalty.
+
+(* End to end, inside the executable model (no abstract matrices): under the per-axis eigen contracts the matrix
+   WhittakerSystem2D.solve assembles (face-splitting / reshape pipeline + repeat/tile penalty + fill_diagonal) IS
+   U' (diag(vec W) + kron(P_r, I_N) + kron(I_M, P_c)) U for U = kron(U_r, U_c): the documented full system projected
+   on the eigenbasis (P_r, P_c carry lam_r, lam_c; their eigenvalues are lam_r*values_rows, lam_c*values_columns) ... *)
+Theorem C20_lhs_is_projected_full_system : forall (R : ops),
+  semi_ring_theory (t0 R) (t1 R) (tadd R) (tmul R) (@eq (T R)) ->
+  forall (cf : cfg) (M N a c : nat) (Ur Uc W Pr Pc : mat R) (lam_r lam_c : T R) (vr vc : vec R) (r s : Z),
+  cfg_ok cf = true ->
+  orthonormal_cols R M a Ur -> orthonormal_cols R N c Uc ->
+  diagonalises R M a Ur Pr (vscale R lam_r vr) -> diagonalises R N c Uc Pc (vscale R lam_c vc) ->
+  0 <= r < Z.of_nat a * Z.of_nat c -> 0 <= s < Z.of_nat a * Z.of_nat c ->
+  lhs_model R cf M N a c Ur W Uc (penalty R cf (Z.of_nat a) (Z.of_nat c) lam_r lam_c vr vc) r s
+  = projected R M N c Ur Uc (full_matrix R N W Pr Pc) r s.
+Proof. exact lhs_is_projected_full_system. Qed.
+Print Assumptions C20_lhs_is_projected_full_system.
+
+(* ... so coefficients that solve the system the code builds satisfy U'(W+P)U c = U' W vec(y), the Galerkin system of
+   (W + P) v = W y (C20_galerkin* then give: v = U c solves the full system for a full orthogonal basis). *)
+Theorem C20_solve_is_galerkin : forall (R : ops),
+  semi_ring_theory (t0 R) (t1 R) (tadd R) (tmul R) (@eq (T R)) ->
+  forall (cf : cfg) (M N a c : nat) (Ur Uc W Y Pr Pc : mat R) (lam_r lam_c : T R) (vr vc coef : vec R),
+  cfg_ok cf = true ->
+  orthonormal_cols R M a Ur -> orthonormal_cols R N c Uc ->
+  diagonalises R M a Ur Pr (vscale R lam_r vr) -> diagonalises R N c Uc Pc (vscale R lam_c vc) ->
+  (forall r, 0 <= r < Z.of_nat a * Z.of_nat c ->
+     mvec R (a * c) (lhs_model R cf M N a c Ur W Uc (penalty R cf (Z.of_nat a) (Z.of_nat c) lam_r lam_c vr vc)) coef r
+     = rhs_model R M N (Z.of_nat c) Ur W Y Uc r) ->
+  forall r, 0 <= r < Z.of_nat a * Z.of_nat c ->
+    mvec R (a * c) (projected R M N c Ur Uc (full_matrix R N W Pr Pc)) coef r
+    = btwy_spec R M N (Z.of_nat c) Ur W Y Uc r.
+Proof. exact solve_is_galerkin. Qed.
+Print Assumptions C20_solve_is_galerkin.
 
 Example C20_eigen_contract_nonvacuous :
   orthonormal_cols ZO 2 2 (of_rows [[0; 1]; [1; 0]]) /\
